@@ -174,10 +174,15 @@ produceLoop:
 
 func getOctoSQLValue(t octosql.Type, value *fastjson.Value) (out octosql.Value, ok bool) {
 	if value == nil {
-		return octosql.NewNull(), t.TypeID == octosql.TypeIDNull
+		// A missing key is a NULL, which fits every type that admits NULL (not only the NULL type itself).
+		return octosql.NewNull(), octosql.Null.Is(t) == octosql.TypeRelationIs
 	}
 
 	switch t.TypeID {
+	case octosql.TypeIDNull:
+		if value.Type() == fastjson.TypeNull {
+			return octosql.NewNull(), true
+		}
 	case octosql.TypeIDFloat:
 		if value.Type() == fastjson.TypeNumber {
 			v, _ := value.Float64()
@@ -211,6 +216,10 @@ func getOctoSQLValue(t octosql.Type, value *fastjson.Value) (out octosql.Value, 
 	case octosql.TypeIDList:
 		if value.Type() == fastjson.TypeArray {
 			arr, _ := value.Array()
+			if t.List.Element == nil {
+				// The type of the empty list: only an empty array fits.
+				return octosql.NewList([]octosql.Value{}), len(arr) == 0
+			}
 			values := make([]octosql.Value, len(arr))
 
 			outOk := true
